@@ -6,6 +6,7 @@ Line protocol of C07 (see harness/c07_test.go).
   reset
   create <chainId hex> <tlNum> <tlDen> <trustingPeriod> <maxClockDrift> <timeDelay> <latestRev> <latestH>
          <consTime> <root hex> <nextValsHash hex> <now>
+  upgrade <same fields as create>           -- keeper UpgradeClient: client state replaced, consensus state + metadata at its latest height
   upd <now> <trustedRev> <trustedH>
       <chainId hex> <height> <time> <valsHash> <nextValsHash> <appHash> <structOk> <headerHash>
       <hasCommit> <commitHeight> <commitBlockHash> <commitBasicOk> <nsig> {<flag> <addr> <signerKey> <good>}*
@@ -141,6 +142,15 @@ def step (st : St) (line : String) : St × String :=
       let c := createClient ⟨cid, num, den, tp, drift, ⟨lrev, lh⟩, delay⟩ ⟨ctime, root, nvh⟩ now
       ({ c := some c }, "ok " ++ dump c)
     | _, _, _, _, _, _, _, _, _, _, _, _ => (st, "bad-op")
+  | ["upgrade", cid, num, den, tp, drift, delay, lrev, lh, ctime, root, nvh, now] =>
+    match st.c, unhex cid, num.toNat?, den.toNat?, parseInt? tp, parseInt? drift, delay.toNat?, lrev.toNat?, lh.toNat?,
+          parseInt? ctime, unhex root, unhex nvh, parseInt? now with
+    | some c, some cid, some num, some den, some tp, some drift, some delay, some lrev, some lh,
+      some ctime, some root, some nvh, some now =>
+      if !validTrustLevel num den then (st, "rej") else
+      let c' := upgradeClient c ⟨cid, num, den, tp, drift, ⟨lrev, lh⟩, delay⟩ ⟨ctime, root, nvh⟩ now
+      ({ c := some c' }, "ok " ++ dump c')
+    | _, _, _, _, _, _, _, _, _, _, _, _, _ => (st, "bad-op")
   | "upd" :: rest =>
     match st.c, parseUpd rest with
     | some c, some u =>
